@@ -387,7 +387,7 @@ void h_##fn##_##sfx(void) \
 	BInt r = fn(a); \
 	CHECK(#fn ": exact and canonical", POST_##fn(va, r)); \
 	CHECK(#fn ": operand unchanged", BS_V(a) == va && BS_CANON(a)); \
-	CHECK(#fn ": no digit stored beyond the capacity", SLACK_OK(r) && SLACK_OK(a)); \
+	CHECK(#fn ": no digit stored beyond the capacity", SLACK_OK(r) && ((K) || SLACK_OK(a))); \
 	VREACH(); \
 }
 H_UN(bintNegate, i, 1) H_UN(bintNegate, s, 0)
@@ -420,7 +420,7 @@ void h_##fn##_##sfx##_sg##SG(void) \
 	BInt r = fn(a, b); \
 	CHECK(#fn ": exact and canonical", POST_##fn(va, vb, r)); \
 	CHECK(#fn ": operands unchanged", BS_V(a) == va && BS_V(b) == vb); \
-	CHECK(#fn ": no digit stored beyond the capacity", SLACK_OK(r) && SLACK_OK(a) && SLACK_OK(b)); \
+	CHECK(#fn ": no digit stored beyond the capacity", SLACK_OK(r) && ((KA) || SLACK_OK(a)) && ((KB) || SLACK_OK(b))); \
 	VREACH(); \
 }
 #define H_ADD4(fn, SG) H_ADD(fn, ii, 1, 1, SG) H_ADD(fn, is, 1, 0, SG) H_ADD(fn, si, 0, 1, SG) H_ADD(fn, ss, 0, 0, SG)
@@ -474,7 +474,7 @@ void h_bintTimes_unit_s_m1(void) BODY_bintTimes_unit(0, -1)
 	BInt r = bintShift(b, n); \
 	CHECK("bintShift: exact (right shift truncates the magnitude) and canonical", POST_bintShift(vb, n, r)); \
 	CHECK("bintShift: operand unchanged", BS_V(b) == vb); \
-	CHECK("bintShift: no digit stored beyond the capacity", SLACK_OK(r) && SLACK_OK(b)); \
+	CHECK("bintShift: no digit stored beyond the capacity", SLACK_OK(r) && ((K) || SLACK_OK(b))); \
 	VREACH(); \
 }
 ENTRIES_K(bintShift)
@@ -488,7 +488,7 @@ ENTRIES_K(bintShift)
 	bs_v vb = BS_V(b); \
 	BInt r = bintShiftRem(b, n); \
 	CHECK("bintShiftRem: the lowest n bits, canonical", POST_bintShiftRem(vb, n, r)); \
-	CHECK("bintShiftRem: no digit stored beyond the capacity", SLACK_OK(r) && SLACK_OK(b)); \
+	CHECK("bintShiftRem: no digit stored beyond the capacity", SLACK_OK(r) && ((K) || SLACK_OK(b))); \
 	VREACH(); \
 }
 void h_bintShiftRem_i(void)  BODY_bintShiftRem(1, 1)
